@@ -45,7 +45,7 @@ type (
 		Var    string
 		Typ    string
 		Body   Expr
-		Trig   []Expr
+		Trig   [][]Expr
 	}
 )
 
@@ -277,6 +277,12 @@ func (p *parser) unary() Expr {
 		p.next()
 		return EUn{"-", p.unary()}
 	}
+	if p.isOp("[") && p.t[p.p+1].k == "op" && p.t[p.p+1].s == "]" { // a slice type used as an argument, e.g. backing(x, []*Backend)
+		p.next()
+		p.next()
+		inner := p.unary()
+		return EIdent{"[]" + inner.String()}
+	}
 	if p.isOp("*") { // a pointer type used as an argument, e.g. asptr(x, *bucket)
 		p.next()
 		t := p.next()
@@ -339,11 +345,12 @@ func (p *parser) primary() Expr {
 				typ += p.next().s
 			}
 			p.expect("::")
-			var trig []Expr
-			for p.isOp("{") { // optional trigger terms {e1, e2}
+			var trig [][]Expr
+			for p.isOp("{") { // optional triggers: {e1, e2} is one multi-pattern; several groups are alternatives
 				p.next()
+				var grp []Expr
 				for {
-					trig = append(trig, p.expr())
+					grp = append(grp, p.expr())
 					if p.isOp(",") {
 						p.next()
 						continue
@@ -351,6 +358,7 @@ func (p *parser) primary() Expr {
 					break
 				}
 				p.expect("}")
+				trig = append(trig, grp)
 			}
 			body := p.expr()
 			return EQuant{t.s == "forall", v.s, typ, body, trig}
@@ -462,6 +470,7 @@ type FieldPolicy struct {
 }
 
 type Monitor struct {
+	Guar   []Clause
 	Pkg    string
 	Type   string // struct type holding the mutex
 	Mutex  string // field name
@@ -715,8 +724,12 @@ func (cs *Contracts) loadFile(path, repo string) error {
 			if err != nil {
 				return fail(l, err)
 			}
+			if curM != nil {
+				curM.Guar = append(curM.Guar, c)
+				break
+			}
 			if curA == nil {
-				return fail(l, fmt.Errorf("guarantee outside atomic"))
+				return fail(l, fmt.Errorf("guarantee outside atomic/monitor"))
 			}
 			curA.Guar = append(curA.Guar, c)
 		case "requires", "ensures", "ensures_panic", "invariant", "inv":
